@@ -18,7 +18,7 @@
 From Coq Require Import List Bool.
 Import ListNotations.
 From MVGen Require Import Tables_gen.
-From MV Require Import Base.MvBytes Css.CssBox Tables.TablesCheck.
+From MV Require Import Base.MvBytes Ref.RefCssColors Css.CssBox Css.CssColor Css.CssColorProofs Tables.TablesCheck.
 
 Theorem box_shorthand_sound : forall (tok : Type) (teq : tok -> tok -> bool),
   (forall a b, teq a b = true <-> a = b) -> forall vs, box4 tok (box_collapse tok teq vs) = box4 tok vs.
@@ -42,6 +42,24 @@ Theorem css_color_tables_ok :
   (forall e, In e (filter not_k21 css_shorten_color_name) -> color_name_ok e = true).
 Proof. split; apply forallb_forall; vm_compute; reflexivity. Qed.
 Print Assumptions css_color_tables_ok.
+
+(* the hash-token branch of minifyColor (lower-casing, opaque / transparent alpha, hex -> keyword, 6 -> 3 and 8 -> 4 digits):
+   every 3/4/6/8-digit hash colour keeps its sRGB colour and alpha (a fully transparent colour may change its invisible
+   rgb part: #rrggbb00 -> #0000) and never gets longer, with the table regenerated from css/table.go *)
+Theorem hex_color_sound : forall d, valid_hash d = true ->
+  exists c c', color_rgba d = Some c /\ color_rgba (hex_color_minify css_shorten_color_hex d) = Some c' /\ rgba_equiv c c'.
+Proof. exact CssColorProofs.hex_color_sound_gen. Qed.
+Print Assumptions hex_color_sound.
+
+Theorem hex_color_not_longer : forall T d, table_ok T -> valid_hash d = true ->
+  (length (hex_color_minify T d) <= length d)%nat.
+Proof. exact CssColorProofs.hex_color_not_longer. Qed.
+Print Assumptions hex_color_not_longer.
+
+Theorem hex_color_other_lengths : forall T d h ds, d = h :: ds -> lookup (h :: map to_lower ds) T = None ->
+  length ds <> 6%nat -> length ds <> 8%nat -> hex_color_minify T d = h :: map to_lower ds.
+Proof. exact CssColorProofs.hex_color_other_lengths. Qed.
+Print Assumptions hex_color_other_lengths.
 
 (* non-vacuity *)
 Example box_nonvacuous :
